@@ -347,7 +347,7 @@ def run(ctx, rep):
     with_hold = not ctx.quick()
     rep.space("histories",
               "explicit-state BFS by re-execution on fresh Python objects: one StripedSequence per instance "
-              "(7 sequences: 64-nt README, 200-nt de Bruijn, 76-nt with N, 5-nt, empty, 50-aa protein, 40-nt) x 3 motif families "
+              "(8 sequences: 64-nt README, 200-nt de Bruijn, 76-nt with N, 5-nt, empty, 50-aa protein, 40-nt, 1100-nt = 35 striped rows) x 3 motif families "
               "(create->normalize(0.1)->log_odds; integer-valued ScoringMatrix; create().pssm with -inf cells) x 3 forced dispatcher arms; "
               "motif widths 3/7/15/40; ops: calculate(Pk), scan(Pk, 3 thresholds, block 1/3/256) drained + 2 extra next(), max, argmax, "
               "threshold(3 values) on the last scores, copy (continue on the copy), memoryview taken and held, calculate with a motif of "
